@@ -53,6 +53,9 @@ class Cfg(object):
         self.ite_minmax = True         # builtin min/max as ITE terms instead of forks
         self.path_deadline_s = 600     # hard limit per path (worker gets killed)
         self.logic = None
+        self.portfolio = False         # on `unknown` in prove(): re-ask /usr/bin/z3 4.8.12, z3 5.1 CLI and cvc5 1.4 on the SMT-LIB2 dump
+        self.portfolio_s = 60
+        self.portfolio_logic = None
         self.home = None               # property that owns the un-prefixed obligation labels of this harness body
         self.pid = None                # property being decided: obligations labelled 'Cxx:...' of other properties are skipped
         self.refine_ms = 6000          # NRA budget for refining a counterexample found under the UF abstraction
@@ -387,6 +390,12 @@ class Path(object):
                 xnames.append(k)
                 terms.append(t)
         rs, vals, _ = self.check([z3.Not(term)], eval_terms=terms)
+        if rs == 'unknown' and self.cfg.portfolio:
+            r2 = self._portfolio([z3.Not(term)])
+            if r2 == 'unsat':
+                rs = 'unsat'
+                self.unknowns -= 1
+                self.notes.append('discharged by portfolio: ' + label)
         rec = {'label': label}
         if detail is not None:
             rec['detail'] = detail
@@ -413,6 +422,70 @@ class Path(object):
             self.inconclusive = True
         self.obls.append(rec)
         return rs == 'unsat'
+
+    def _portfolio(self, extra):
+        """second chance for an `unknown`: other engines on the SMT-LIB2 dump; only `unsat` is used (discharge)"""
+        import subprocess
+        import tempfile
+        s2 = z3.Solver()
+        s2.add(self.solver.assertions())
+        for e in extra:
+            s2.add(e)
+        txt = s2.to_smt2()
+        t = max(5, int(self.cfg.portfolio_s))
+        fd, fn = tempfile.mkstemp(suffix='.smt2', prefix='dfverif-')
+        try:
+            with os.fdopen(fd, 'w') as f:
+                f.write(txt)
+            cmds = []
+            logic = self.cfg.portfolio_logic
+            if logic:
+                fn2 = fn + '.logic.smt2'
+                with open(fn2, 'w') as f:
+                    f.write("(set-logic %s)\n" % logic + txt)
+            else:
+                fn2 = fn
+            cmds.append(['/usr/bin/z3', '-T:%d' % t, fn2])
+            cmds.append(['z3-new', '-T:%d' % t, fn2])
+            cvc = os.path.join(os.path.dirname(sys.executable), 'python')
+            cmds.append([cvc, '-m', 'dfverif.cvc5run', fn2, str(t)])
+            procs = []
+            for c in cmds:
+                try:
+                    procs.append(subprocess.Popen(c, stdout=subprocess.PIPE, stderr=subprocess.DEVNULL, text=True,
+                                                  env=dict(os.environ, PYTHONPATH=os.path.dirname(os.path.dirname(os.path.abspath(__file__))))))
+                except OSError:
+                    pass
+            deadline = time.time() + t + 5
+            verdicts = []
+            pending = list(procs)
+            while pending and time.time() < deadline:
+                for pr in list(pending):
+                    if pr.poll() is not None:
+                        out = (pr.stdout.read() or '').strip().splitlines()
+                        pending.remove(pr)
+                        if out and '(error' not in ' '.join(out):
+                            verdicts.append(out[0].strip())
+                if 'unsat' in verdicts or 'sat' in verdicts:
+                    break
+                time.sleep(0.05)
+            for pr in pending:
+                try:
+                    pr.kill()
+                except OSError:
+                    pass
+            self.nq += 1
+            if 'unsat' in verdicts and 'sat' not in verdicts:
+                return 'unsat'
+            if 'sat' in verdicts and 'unsat' in verdicts:
+                self.notes.append('SOLVER DISAGREEMENT in portfolio')
+            return 'unknown'
+        finally:
+            for f_ in (fn, fn + '.logic.smt2'):
+                try:
+                    os.unlink(f_)
+                except OSError:
+                    pass
 
     def _refine(self, term, terms):
         """re-ask pc and not term with the exact (nonlinear) meaning of every abstracted operation, in a forked child"""
